@@ -111,13 +111,16 @@ def need_fn(name):
     return need
 
 
-def gen_case(ctx, krylov):
+def gen_case(ctx, krylov, present=()):
     r = ctx.rng
     cplx = r.random() < 0.35
-    g = C.RGen(r, krylov=krylov)
+    kname = r.choice(["lanczos", "lanczos", "arnoldi"]) if krylov else None
+    # Arnoldi accepts any square operator: general (indefinite, negative-determinant, complex) base nodes are generated as soon as
+    # the Krylov rule no longer returns (t/|t|, |t|) (flag krylov_slogdet_abs_of_trace absent); Lanczos needs self-adjoint ones
+    g = C.RGen(r, krylov=("general" if (kname == "arnoldi" and "krylov_slogdet_abs_of_trace" not in present) else krylov))
     t = g.tree(r.choice([0, 1, 1, 2, 2, 2, 3] if ctx.tier != "thorough" else [0, 1, 2, 2, 3, 3, 4]), None, cplx, maxn=4)
     if krylov:
-        name = r.choice(["lanczos", "lanczos", "arnoldi"])
+        name = kname
     else:
         name = r.choice(["auto", "auto", "auto", "lu", "lu", "chol"])
     trace = r.choice(["exact", "auto"])
@@ -196,14 +199,14 @@ def run(ctx):
     n_struct = ctx.budget(420, 5000)
     n_kry = ctx.budget(80, 800)
     stats = dict(skipped_oracle_hyp=0, expected_assert=0, flag_attributed=0,
-                 oracle_verified=0, krylov_cases=0, krylov_complex_trace_skipped=0, krylov_hyp_failed=0)
+                 oracle_verified=0, krylov_cases=0, krylov_complex_trace_skipped=0, krylov_complex_trace_oracle_verified=0, krylov_hyp_failed=0)
     mism = []
     cases, obs = [], []
     tries = 0
     while len(cases) < n_struct + n_kry and tries < 20 * (n_struct + n_kry):
         tries += 1
         kry = len(cases) >= n_struct
-        c = gen_case(ctx, kry)
+        c = gen_case(ctx, kry, present)
         N = C.rsize(c["recipe"])
         if N == 0 or N > 12:
             continue
@@ -280,6 +283,8 @@ def run(ctx):
             if any(abs(t.imag) > 1e-9 * max(1, abs(t)) for t in ts) or any(t.real == 0 for t in ts):
                 stats["krylov_complex_trace_skipped"] += 1
                 rec["kskip"] = True
+                if not ofail:
+                    stats["krylov_complex_trace_oracle_verified"] += 1
                 if ofail and "krylov_slogdet_abs_of_trace" not in present:
                     mism.append(dict(oracle_fail=True, case=c, got=dict(sign=str(s), logabs=str(l)), expected=rec["oracle"], failed_clauses=ofail))
                 continue
